@@ -231,5 +231,34 @@ func (f Features) fingerprint() string {
 		}
 		return '0'
 	}
-	return string([]byte{'s', byte('0' + f.ShortSize%10), byte('0' + f.ShortSize/10), 'b', b(f.BigInnerCnt > 0), 'i', b(f.InnerPrefix), 'l', b(f.LeafPrefix), 'v', b(f.Leaves), b(f.VarLeaves), 'e', b(f.Empty)})
+	// short<ShortSize, two digits> big<0|1> innerprefix<0|1> leafprefix<0|1> values<present><variable width> empty<0|1>
+	return string([]byte{'s', byte('0' + f.ShortSize/10), byte('0' + f.ShortSize%10), 'b', b(f.BigInnerCnt > 0), 'i', b(f.InnerPrefix), 'l', b(f.LeafPrefix), 'v', b(f.Leaves), b(f.VarLeaves), 'e', b(f.Empty)})
+}
+
+// probes: coarse reach probes for the concurrent properties.
+func (f Features) probes(c map[string]int64) {
+	if !f.OK {
+		return
+	}
+	switch {
+	case f.ShortSize >= 5:
+		c["probe.subject_shortsize_ge5"]++
+	case f.ShortSize >= 1:
+		c["probe.subject_shortsize_1to4"]++
+	}
+	if f.BigInnerCnt > 0 {
+		c["probe.subject_has_257bit_nodes"]++
+	}
+	if f.InnerPrefix {
+		c["probe.subject_stores_inner_prefixes"]++
+	}
+	if f.LeafPrefix {
+		c["probe.subject_stores_leaf_prefixes"]++
+	}
+	if f.VarLeaves {
+		c["probe.subject_variable_width_values"]++
+	}
+	if f.Empty {
+		c["probe.subject_empty"]++
+	}
 }
